@@ -4,6 +4,8 @@
 set -u
 export GOFLAGS=-mod=mod GOPROXY=off GOSUMDB=off GOTOOLCHAIN=local
 export GOCACHE=${GOCACHE:-/root/.cache/go-build}
+# soft memory limit for the check process (the garbage collector works harder above it; nothing fails)
+export GOMEMLIMIT=${GOMEMLIMIT:-6GiB}
 # relocatable: everything is relative to the directory of this script (so that a snapshot
 # of /verif can run side by side); /repo is always the tree under test
 ROOT="$(cd "$(dirname "$(readlink -f "$0")")" && pwd)"
